@@ -117,7 +117,11 @@ func buildQuery(fr *FuncResult, o *Oblig, variant int) string {
 			sb.WriteString("(assert " + a + ")\n")
 		}
 	}
+	// variants 2 and 3: no spec axioms
 	for _, c := range fr.Cons[:o.NCons] {
+		if variant == 3 && strings.Contains(c, "(forall ") {
+			continue // variant 3: quantified hypotheses dropped as well (still only weakens the assumptions)
+		}
 		sb.WriteString("(assert " + c + ")\n")
 	}
 	for _, c := range o.Extra {
@@ -191,6 +195,14 @@ func solve(dir string, fr *FuncResult, o *Oblig, timeoutS int, all bool) {
 	jobs := []job{}
 	for _, sp := range solvers {
 		jobs = append(jobs, job{sp, file, true})
+	}
+	if o.Expect == "unsat" {
+		q3 := buildQuery(fr, o, 3)
+		if q3 != q {
+			f3 := filepath.Join(dir, sanitizeFile(o.Name)+".v3.smt2")
+			os.WriteFile(f3, []byte(q3), 0644)
+			jobs = append(jobs, job{solverSpec{"z3-new/quantifier-free-hyps", solvers[0].args}, f3, false})
+		}
 	}
 	if o.Expect == "unsat" && len(fr.Axioms) > 0 {
 		q1, q2 := buildQuery(fr, o, 1), buildQuery(fr, o, 2)
